@@ -34,3 +34,10 @@ package httpproxy
 //@   callsite Request).Write: !has(req.Header, "Connection") && !has(req.Header, "Proxy-Authorization") && !has(req.Header, "Upgrade") && !has(req.Header, "Transfer-Encoding") && !has(req.Header, "Proxy-Connection") && !has(req.Header, "Keep-Alive") && !has(req.Header, "Te")
 //@   callsite Request).Write: req.Host == fixedHost
 //@   loop 0 invariant req.Host == fixedHost
+
+// Responses: each one is cleaned before it is written to the client, and the next request is only taken
+// from the queue after a final (non-1xx) response to the current one - interim responses stay paired with
+// the request they belong to.
+//@ func serverForwardResponses
+//@   callsite Response).Write: !has(resp.Header, "Connection") && !has(resp.Header, "Proxy-Connection") && !has(resp.Header, "Keep-Alive") && !has(resp.Header, "Te") && !has(resp.Header, "Transfer-Encoding") && !has(resp.Header, "Proxy-Authenticate") && !has(resp.Header, "Proxy-Authentication-Info")
+//@   loop 1 break resp.StatusCode >= 200
